@@ -43,7 +43,7 @@ def gen_cases(rng, tier):
     # lengths below, at, and above exact multiples of the chunk size
     for k in (8, 16, 64):
         for n in [0, 1, k - 3, k - 1, k, k + 1, k + 5, 2 * k - 1, 2 * k, 2 * k + 1, 3 * k, 3 * k + 7, 5 * k] + [rng.randrange(0, 6 * k) for _ in range(4 if tier == 'quick' else 60)]:
-            if n >= 0: yield {'op': 'tofile_chunk', 'chunk': k, 'bits': rand_bits(rng, n), 'cls': rng.choice(CLASSES), 'route': rng.choice(ROUTES)}
+            if n >= 0: yield {'op': 'tofile_chunk', 'chunk': k, 'bits': rand_bits(rng, n), 'cls': rng.choice(CLASSES), 'route': rng.choice(ROUTES), 'lsb0': rng.random() < 0.4}
     if tier == 'thorough':
         yield {'op': 'bigfile', 'extra': 13}
 
@@ -124,8 +124,12 @@ def run_impl(c):
                                 fn0.__globals__, 'tofile', fn0.__defaults__, fn0.__closure__)
         def f():
             s = build(c['cls'], c['bits'], c['route'])
-            sink = io.BytesIO(); fn(s, sink)
-            return [list(sink.getvalue()), list(s.tobytes()), s.bin == c['bits']]
+            bitstring.options.lsb0 = bool(c.get('lsb0'))        # the file is tobytes() whatever the bit numbering
+            try:
+                sink = io.BytesIO(); fn(s, sink)
+                return [list(sink.getvalue()), list(s.tobytes()), s.bin == c['bits']]
+            finally:
+                bitstring.options.lsb0 = False
         return attempt(f)
     if op == 'chunkconst':
         import ast, inspect
